@@ -170,3 +170,47 @@ Theorem C08_client_delivery : forall v msgs chunks,
   tr_stream v chunks = Some (map TData msgs, EEof).
 Proof. exact tr_delivery. Qed.
 Print Assumptions C08_client_delivery.
+
+(* ---- a stream that ends INSIDE a frame -----------------------------------------------------------------
+   The connection is closed (or the writer gives up) after a proper prefix [p] of the frame of a message [m]
+   ([frame v m = p ++ q], [q] not empty; [p] may be empty, a part of the length header, the header, or the header
+   and a part of the body).  Under EVERY segmentation of what did arrive the reader delivers exactly the complete
+   messages before it and then fails: the incomplete frame is never handed out as a message.  Proofs:
+   Transport/Truncated.v ([read_msg_extend]: ReadMsg depends only on the bytes it consumes). *)
+From MTV Require Import Transport.Truncated.
+
+Theorem C08_truncated_frame_is_not_a_message : forall v msgs m p q chunks,
+  Forall (carriable v) msgs -> carriable v m -> frame v m = p ++ q -> q <> [] ->
+  concat chunks = wire v msgs ++ p ->
+  exists e, read_stream chunks = Some {| d_mode := Some v; d_msgs := msgs; d_end := e |}.
+Proof. exact truncated. Qed.
+Print Assumptions C08_truncated_frame_is_not_a_message.
+
+(* the same for the client's reader, transport.ReadMsg over the connection's mode *)
+Theorem C08_client_truncated_frame : forall v msgs m p q chunks,
+  Forall (carriable v) msgs -> Forall (fun x => blen x <> 4) msgs ->
+  carriable v m -> frame v m = p ++ q -> q <> [] -> concat chunks = concat (map (frame v) msgs) ++ p ->
+  exists e, tr_stream v chunks = Some (map TData msgs, e).
+Proof. exact tr_truncated. Qed.
+Print Assumptions C08_client_truncated_frame.
+
+(* ... and the failure is "unexpected end" (kind other), not io.EOF, whenever at least one byte of the body
+   has arrived.  (Cut exactly behind a length header the first read of the body gets io.EOF and the code
+   passes it on unwrapped: end-of-stream, still not a message.) *)
+Theorem C08_truncated_in_body : forall v m b1 b2, carriable v m -> m = b1 ++ b2 -> b1 <> [] -> b2 <> [] ->
+  read_msg flat_read v (header v (blen m) ++ b1) = Fail EOther.
+Proof. exact truncated_in_body. Qed.
+Print Assumptions C08_truncated_in_body.
+
+Example C08_truncated_instance :
+  let msgs := [[1; 2; 3; 4]; []] in
+  let m := zeros 508 in
+  (* cut inside the 4-byte header of a 127-word message, after the header, and inside the body *)
+  read_stream (cut [3; 2] (wire Abridged msgs ++ firstn 2 (frame Abridged m)))
+    = Some {| d_mode := Some Abridged; d_msgs := msgs; d_end := EOther |} /\
+  read_stream (cut [1; 7] (wire Abridged msgs ++ firstn 4 (frame Abridged m)))
+    = Some {| d_mode := Some Abridged; d_msgs := msgs; d_end := EEof |} /\
+  read_stream (cut [5; 200] (wire Intermediate msgs ++ firstn 300 (frame Intermediate m)))
+    = Some {| d_mode := Some Intermediate; d_msgs := msgs; d_end := EOther |}.
+Proof. vm_compute. repeat split; reflexivity. Qed.
+Print Assumptions C08_truncated_instance.
